@@ -14,7 +14,8 @@ EXPLANATION = (
     "between; (O3) no forget/leak/ManuallyDrop on descriptor owners; (O4) from_raw_fd / close are applied only to descriptors "
     "the library owns (received, just unwrapped, or just duplicated) — never to descriptors lent by the caller for sending; "
     "(O5) handler traits take received descriptors by value (or borrowed from a vector the server drops after the call); "
-    "(O6) on every path of the two servers the received file vector is either moved to its consumer or dropped.")
+    "(O6) on every path of the two servers the received file vector is either moved to its consumer or dropped."
+    ' Also: (O1) every other raw receive passes an empty descriptor buffer; (O7) teardown joins every worker (no iteration of the join loop can skip it) and shuts the connection down (C16/H5).')
 NOT_DECIDED = ("Kernel behaviour beyond MAX_ATTACHED_FD_ENTRIES (vmm-sys-util closes truncated control data — assumed), equality of "
                "/proc/self/fd snapshots.")
 
